@@ -27,6 +27,10 @@ CK_VOID_PTR HandleManager::getObject(const CK_OBJECT_HANDLE hObject)
 	if (hObject == CK_INVALID_HANDLE) return NULL;
 	if (hObject == SES(HOBJ0)) return (CK_VOID_PTR)vp_obj(0);
 	if (hObject == SES(HOBJ1)) return (CK_VOID_PTR)vp_obj(1);
+#ifdef VP_ENV_GETOBJECT_NEW
+	// the object a CreateObject stub made during this call (environment object 2) under the fresh handle 777
+	if (hObject == 777UL && SFX(CREATE_N) > 0 && SES(NEW_RESOLVES)) return (CK_VOID_PTR)vp_obj(2);
+#endif
 	return NULL;
 }
 
